@@ -928,6 +928,13 @@ func txnIterHandlerFunc(
 			return true, nil
 		}
 
+		// build-in transactions are added by the generator itself at the end of the block; a pool transaction that
+		// carries a build-in function name would make every verifier reject the block ("duplicated build-in
+		// transaction"), so it is left out
+		if mc.isBuildInTxn(txn) {
+			return true, nil
+		}
+
 		if lfb.ClientState == nil {
 			logging.Logger.Warn("generate block, chain is not ready yet",
 				zap.Int64("round", b.Round),
